@@ -12,7 +12,7 @@ EXTENDS Integers, Sequences, FiniteSets, TLC, J2O_CastRules
 
 CONSTANTS Tier      \* "quick" | "thorough": size of the neighbourhoods
 
-UnaryOps == {"Relu", "Tanh", "Sigmoid", "Neg", "Abs", "Identity", "Swish"}
+UnaryOps == {"Relu", "Tanh", "Sigmoid", "Neg", "Abs", "Identity", "Swish", "Elu"}
 BinaryOps == {"Add", "Mul", "Sub", "Max", "Min"}
 
 DTypes == {"FLOAT", "DOUBLE", "FLOAT16", "INT32", "INT64"}
@@ -140,7 +140,7 @@ RPairs == {RPair(b, n, sym, dst, to, mid) :
              mid \in {"flat", "row"}}
 
 (* Reshape(mid) -> unary chain -> Reshape(back) [-> Reshape(mid) again] -> Relu *)
-RChainOps == {"Relu", "Tanh"}
+RChainOps == {"Relu", "Tanh", "Elu"}     \* Elu: an op no later pass re-infers shapes for
 RChains == {<<a>> : a \in RChainOps} \cup {<<a, b>> : a \in RChainOps, b \in RChainOps}
            \cup (IF Tier = "quick" THEN {} ELSE {<<a, b, c>> : a \in RChainOps, b \in RChainOps, c \in RChainOps})
 RChain(sh, mid, ch, follow, togOut) ==
